@@ -473,7 +473,8 @@ class Concatenator(Group):  # pylint: disable=too-many-public-methods
         if not isinstance(children, list):
             children = [children]
 
-        for child in children:
+        # the caller may hand over the child list itself
+        for child in list(children):
             if child not in self._children:
                 continue
 
